@@ -133,7 +133,7 @@ Theorem gen_no_acl_refused L ps p :
 Proof. rewrite gen_permits_is_model. apply no_acl_refused. Qed.
 
 Theorem gen_child_decides child parents ps p e :
-  find (ace_matches ps p) child = Some e ->
+  find (spec_matches ps p) child = Some e ->
   granted (gen_permits (Some child :: parents) ps p) = decide (Some e).
 Proof. rewrite gen_permits_is_model. apply child_decides. Qed.
 
